@@ -55,6 +55,20 @@ Lemma C06_same_description_refuted_old :
   description model_reap_runner_call old_reap_to_ds_call <> [FVarNames; FVarDims; FVarCoords; FConstants; FAttrs].
 Proof. cbn. discriminate. Qed.
 
+(* a crop reaped with default arguments merges into the harvester's dataset under the same policy as a direct
+   harvest with default arguments (conflicts raise on both routes), and both sync by default *)
+Theorem C06_default_policy_agrees :
+  (forall q d, In (q, d) gen_overwrite_defaults -> d = None)
+  /\ (forall q d, In (q, d) gen_sync_defaults -> d = Some true)
+  /\ gen_reap_forwards_policy = true.
+Proof.
+  destruct bridge_policy_defaults as (H1 & H2 & H3). split; [|split; [|exact H3]].
+  - intros q d Hin. rewrite forallb_forall in H1. specialize (H1 _ Hin). cbn in H1. destruct d; [discriminate|reflexivity].
+  - intros q d Hin. rewrite forallb_forall in H2. specialize (H2 _ Hin). cbn in H2.
+    destruct d as [[|]|]; try discriminate. reflexivity.
+Qed.
+
+Print Assumptions C06_default_policy_agrees.
 Print Assumptions C06_same_description.
 Print Assumptions C06_same_kwargs.
 Print Assumptions C06_runner.
